@@ -793,6 +793,76 @@ def _list_texts(sl):
     return [re.sub(r'/\*.*?\*/', '', s.selectorText, flags=re.S).strip() for s in sl]
 
 
+WHAT_R = 'bounded: a selector list with an invalid member is rejected as a whole (raising mode: DOM exception, list unchanged)'
+WHAT_L = 'bounded: a selector list with an invalid member is rejected as a whole (log mode: no exception, list unchanged)'
+WHAT_P = 'bounded: the parser drops a rule whose selector list has an invalid member and keeps its neighbours'
+
+
+def _reject_list_case(text):
+    """one list text with an invalid member through SelectorList.selectorText and CSSStyleRule.selectorText in raising mode, SelectorList.selectorText and the constructor in
+    log mode, and through the parser -> (evaluations, [(clause, detail, inputs)]); leaves cssutils.log.raiseExceptions = False"""
+    import cssutils
+    from cssutils.css import SelectorList, CSSStyleRule
+    what_r, what_l, what_p = WHAT_R, WHAT_L, WHAT_P
+    n = 0
+    viol = []
+    before = ['x', 'y']
+    # raising mode, SelectorList
+    n += 1
+    cssutils.log.raiseExceptions = True
+    sl = SelectorList('x, y')
+    try:
+        sl.selectorText = (text, dict(NS))
+        viol.append((what_r, f'{text!r}: accepted, list now {_list_texts(sl)!r}', {'text': text, 'mode': 'raise'}))
+    except xml.dom.DOMException:
+        if _list_texts(sl) != before:
+            viol.append((what_r, f'{text!r}: raised but list now {_list_texts(sl)!r}', {'text': text, 'mode': 'raise'}))
+    except Exception as e:  # noqa: BLE001
+        viol.append(('bounded: rejecting a selector list raises DOM exceptions only', f'{text!r}: {type(e).__name__}: {e}', {'text': text, 'mode': 'raise'}))
+    # raising mode, CSSStyleRule.selectorText
+    n += 1
+    rule = CSSStyleRule(selectorText='x, y')
+    try:
+        rule.selectorText = (text, dict(NS))
+        viol.append((what_r, f'rule.selectorText = {text!r}: accepted, now {rule.selectorText!r}', {'text': text, 'mode': 'raise', 'via': 'rule'}))
+    except xml.dom.DOMException:
+        if _list_texts(rule.selectorList) != before:
+            viol.append((what_r, f'rule.selectorText = {text!r}: raised but list now {rule.selectorText!r}', {'text': text, 'mode': 'raise', 'via': 'rule'}))
+    except Exception as e:  # noqa: BLE001
+        viol.append(('bounded: rejecting a selector list raises DOM exceptions only', f'rule.selectorText = {text!r}: {type(e).__name__}: {e}', {'text': text, 'via': 'rule'}))
+    # log mode
+    n += 1
+    cssutils.log.raiseExceptions = False
+    sl = SelectorList('x, y')
+    try:
+        sl.selectorText = (text, dict(NS))
+        if _list_texts(sl) != before:
+            viol.append((what_l, f'{text!r}: list now {_list_texts(sl)!r}', {'text': text, 'mode': 'log'}))
+    except Exception as e:  # noqa: BLE001
+        viol.append((what_l, f'{text!r}: {type(e).__name__}: {e}', {'text': text, 'mode': 'log'}))
+    # constructor in log mode: an invalid list gives an empty (not wellformed) list, never a partial one
+    n += 1
+    try:
+        sl = SelectorList((text, dict(NS)))
+        if _list_texts(sl):
+            viol.append((what_l, f'SelectorList({text!r}) holds {_list_texts(sl)!r}', {'text': text, 'mode': 'log', 'via': 'constructor'}))
+    except Exception as e:  # noqa: BLE001
+        viol.append((what_l, f'SelectorList({text!r}): {type(e).__name__}: {e}', {'text': text, 'mode': 'log', 'via': 'constructor'}))
+    # through the parser (log mode is what the parser uses); members that would end the prelude are not usable here
+    # (an unbalanced bracket legitimately swallows the following rules: CSS 2.1 4.1.7 / 4.2 matching pairs)
+    # (and <!-- / --> in front of a statement belong to the style sheet level - CSS 2.1 G.1 stylesheet: [ CDO | CDC | S ]* between statements -, not to the prelude)
+    if not any(ch in text for ch in '{};@') and '/*' not in text and _balanced(text) and not re.match(r'[ \t\r\n\f]*(<!--|-->)', text):
+        n += 1
+        try:
+            sheet = cssutils.parseString('@namespace p "u";\nk1 {left: 0}\n' + text + ' {top: 0}\nk2 {left: 0}')
+            sels = [r.selectorText for r in sheet.cssRules if r.type == r.STYLE_RULE]
+            if sels != ['k1', 'k2']:
+                viol.append((what_p, f'{text!r}: style rules {sels!r}', {'text': text, 'via': 'parser'}))
+        except Exception as e:  # noqa: BLE001
+            viol.append((what_p, f'{text!r}: {type(e).__name__}: {e}', {'text': text, 'via': 'parser'}))
+    return n, viol
+
+
 def lists(ctx):
     """order preserved; all-or-nothing in raising mode, in log mode, through rule.selectorText and through the parser"""
     cssutils = _quiet()
@@ -834,9 +904,7 @@ def lists(ctx):
                     ctx.violation('bounded: a serialised selector list reparses to the same members in the same order', f'{text!r} -> {out!r} -> {_list_texts(sl2)!r}', True, {'text': text})
             kinds.add(('order', k, sep))
     # ---- all or nothing
-    what_r = 'bounded: a selector list with an invalid member is rejected as a whole (raising mode: DOM exception, list unchanged)'
-    what_l = 'bounded: a selector list with an invalid member is rejected as a whole (log mode: no exception, list unchanged)'
-    what_p = 'bounded: the parser drops a rule whose selector list has an invalid member and keeps its neighbours'
+    what_r, what_l = WHAT_R, WHAT_L
     valid3 = ['a', 'b.c', 'a > b']
     try:
         for k in range(1, 4):
@@ -856,59 +924,10 @@ def lists(ctx):
                         continue  # the empty text is "no value", not a list
                     sep = SEPS[(bad_i + k) % 3]
                     text = sep.join(members)
-                    before = ['x', 'y']
-                    # raising mode, SelectorList
-                    n += 1
-                    cssutils.log.raiseExceptions = True
-                    sl = SelectorList('x, y')
-                    try:
-                        sl.selectorText = (text, dict(NS))
-                        ctx.violation(what_r, f'{text!r}: accepted, list now {_list_texts(sl)!r}', True, {'text': text, 'mode': 'raise'})
-                    except xml.dom.DOMException:
-                        if _list_texts(sl) != before:
-                            ctx.violation(what_r, f'{text!r}: raised but list now {_list_texts(sl)!r}', True, {'text': text, 'mode': 'raise'})
-                    except Exception as e:  # noqa: BLE001
-                        ctx.violation('bounded: rejecting a selector list raises DOM exceptions only', f'{text!r}: {type(e).__name__}: {e}', True, {'text': text, 'mode': 'raise'})
-                    # raising mode, CSSStyleRule.selectorText
-                    n += 1
-                    rule = CSSStyleRule(selectorText='x, y')
-                    try:
-                        rule.selectorText = (text, dict(NS))
-                        ctx.violation(what_r, f'rule.selectorText = {text!r}: accepted, now {rule.selectorText!r}', True, {'text': text, 'mode': 'raise', 'via': 'rule'})
-                    except xml.dom.DOMException:
-                        if _list_texts(rule.selectorList) != before:
-                            ctx.violation(what_r, f'rule.selectorText = {text!r}: raised but list now {rule.selectorText!r}', True, {'text': text, 'mode': 'raise', 'via': 'rule'})
-                    except Exception as e:  # noqa: BLE001
-                        ctx.violation('bounded: rejecting a selector list raises DOM exceptions only', f'rule.selectorText = {text!r}: {type(e).__name__}: {e}', True, {'text': text, 'via': 'rule'})
-                    # log mode
-                    n += 1
-                    cssutils.log.raiseExceptions = False
-                    sl = SelectorList('x, y')
-                    try:
-                        sl.selectorText = (text, dict(NS))
-                        if _list_texts(sl) != before:
-                            ctx.violation(what_l, f'{text!r}: list now {_list_texts(sl)!r}', True, {'text': text, 'mode': 'log'})
-                    except Exception as e:  # noqa: BLE001
-                        ctx.violation(what_l, f'{text!r}: {type(e).__name__}: {e}', True, {'text': text, 'mode': 'log'})
-                    # constructor in log mode: an invalid list gives an empty (not wellformed) list, never a partial one
-                    n += 1
-                    try:
-                        sl = SelectorList((text, dict(NS)))
-                        if _list_texts(sl):
-                            ctx.violation(what_l, f'SelectorList({text!r}) holds {_list_texts(sl)!r}', True, {'text': text, 'mode': 'log', 'via': 'constructor'})
-                    except Exception as e:  # noqa: BLE001
-                        ctx.violation(what_l, f'SelectorList({text!r}): {type(e).__name__}: {e}', True, {'text': text, 'mode': 'log', 'via': 'constructor'})
-                    # through the parser (log mode is what the parser uses); members that would end the prelude are not usable here
-                    # (an unbalanced bracket legitimately swallows the following rules: CSS 2.1 4.1.7 / 4.2 matching pairs)
-                    if not any(ch in text for ch in '{};@') and '/*' not in text and _balanced(text):
-                        n += 1
-                        try:
-                            sheet = cssutils.parseString('@namespace p "u";\nk1 {left: 0}\n' + text + ' {top: 0}\nk2 {left: 0}')
-                            sels = [r.selectorText for r in sheet.cssRules if r.type == r.STYLE_RULE]
-                            if sels != ['k1', 'k2']:
-                                ctx.violation(what_p, f'{text!r}: style rules {sels!r}', True, {'text': text, 'via': 'parser'})
-                        except Exception as e:  # noqa: BLE001
-                            ctx.violation(what_p, f'{text!r}: {type(e).__name__}: {e}', True, {'text': text, 'via': 'parser'})
+                    k_n, viol = _reject_list_case(text)
+                    n += k_n
+                    for what, detail, inputs in viol:
+                        ctx.violation(what, detail, True, inputs)
                     kinds.add(('reject', pat, bad))
         # trailing / leading / doubled commas
         for text in ['a,', ',a', 'a,,b', 'a, ,b', ',', 'a,b,', ' , a']:
@@ -1102,3 +1121,122 @@ def list_histories(ctx):
                                 'invalid / comma-containing / undeclared-prefix appends; sl[i] = valid/invalid for i < 3; selectorText = valid/invalid list; del sl[0]) on the list "a, #i", in raising '
                                 'and in log mode, against a Python list of serialised texts; distinct = sequence of operation kinds',
                         'samples': [{'ops': ['append a>b', 'append a > b'], 'expected': ['a', '#i', 'a > b']}], 'bound': f'histories of <= {kmax} operations'})
+
+
+# ----------------------------------------------------------------------------- tokens that have no production in a selector
+# (kind, text). None of these token kinds occurs in the CSS3 selector grammar outside an attribute selector's brackets or a functional pseudo's argument, so a text that
+# holds one at the start, between or at the end of compound selectors is no selector, whatever the rest looks like.
+STRAY_TOKENS = [('CDO', '<!--'), ('CDC', '-->'), ('semicolon', ';'), ('open-brace', '{'), ('close-brace', '}'), ('close-paren', ')'), ('close-bracket', ']'),
+                ('at-keyword', '@x'), ('at-keyword-known', '@media'), ('delim-!', '!'), ('important', '!important'), ('delim-$', '$'), ('delim-&', '&'), ('delim-?', '?'),
+                ('delim-/', '/'), ('delim-<', '<'), ('delim-^', '^'), ('delim-%', '%'), ('delim-=', '='), ('delim-`', '`'),
+                ('includes', '~='), ('dashmatch', '|='), ('prefixmatch', '^='), ('suffixmatch', '$='), ('substringmatch', '*='),
+                ('string-dq', '"s"'), ('string-sq', "'s'"), ('url-bare', 'url(u)'), ('url-quoted', 'url("u")'), ('percentage', '50%'), ('dimension', '1px'), ('number', '1'),
+                ('number-frac', '1.5'), ('unicode-range', 'U+0-f'), ('function', 'f(x)')]
+# {J} = the stray token; start / between (descendant and child combinator, before and behind the combinator) / end of compound selectors, separated by a blank or glued
+STRAY_SPACED = ['{J} b', 'b {J}', 'b {J} c', 'b > {J} c', 'b {J} > c', '{J} p.q', 'b.c {J} #i']
+STRAY_GLUED_RIGHT = ['{J}b', 'b {J}c']          # the token directly before a compound
+STRAY_GLUED_LEFT = ['b{J}', 'b{J} c', 'b.c{J}#i']  # the token directly behind a compound (only tokens that cannot continue an identifier)
+WHAT_SEL_R = 'bounded: a text with a token that has no production in a selector is rejected by Selector (raising mode: DOM exception, an existing selector unchanged)'
+WHAT_SEL_L = 'bounded: a text with a token that has no production in a selector is rejected by Selector (log mode: nothing committed, specificity (0, 0, 0, 0), an existing selector unchanged)'
+WHAT_APP = 'bounded: appendSelector of an invalid selector is refused (raising mode: DOM exception; log mode: returns None) and leaves the list unchanged'
+
+
+def stray_texts(tier):
+    out = []
+    for kind, j in STRAY_TOKENS:
+        templates = list(STRAY_SPACED) + list(STRAY_GLUED_RIGHT)
+        if not re.match(r'[-A-Za-z0-9_\\]', j):
+            templates += STRAY_GLUED_LEFT
+        for t in templates:
+            out.append((kind, t, t.replace('{J}', j)))
+    return out
+
+
+def _stray_case(case):
+    """-> (evaluations, [(clause, detail, inputs)])"""
+    kind, template, text = case
+    cssutils = _quiet()
+    from cssutils.css import Selector, SelectorList
+    n = 0
+    viol = []
+    inp = {'text': text, 'token': kind, 'template': template}
+    try:
+        for mode in (True, False):
+            cssutils.log.raiseExceptions = mode
+            what = WHAT_SEL_R if mode else WHAT_SEL_L
+            # constructor
+            n += 1
+            try:
+                s = Selector((text, dict(NS)))
+                if mode:
+                    viol.append((what, f'Selector({text!r}) accepted as {s.selectorText!r} {s.specificity!r}', dict(inp, mode=mode)))
+                elif s.selectorText != '' or tuple(s.specificity) != (0, 0, 0, 0) or s.wellformed:
+                    viol.append((what, f'Selector({text!r}) committed {s.selectorText!r} {s.specificity!r} wellformed={s.wellformed}', dict(inp, mode=mode)))
+            except xml.dom.DOMException as e:
+                if not mode:
+                    viol.append((what, f'Selector({text!r}): {type(e).__name__}: {e}', dict(inp, mode=mode)))
+            except Exception as e:  # noqa: BLE001
+                viol.append(('bounded: rejecting a selector raises DOM exceptions only', f'Selector({text!r}): {type(e).__name__}: {e}', dict(inp, mode=mode)))
+            # setter on an existing selector: commit only when well-formed
+            n += 1
+            s = Selector('k.l')
+            raised = None
+            try:
+                s.selectorText = (text, dict(NS))
+            except xml.dom.DOMException as e:
+                raised = e
+            except Exception as e:  # noqa: BLE001
+                viol.append(('bounded: rejecting a selector raises DOM exceptions only', f'selectorText = {text!r}: {type(e).__name__}: {e}', dict(inp, mode=mode)))
+                raised = e
+            if (mode and raised is None) or (not mode and raised is not None) or s.selectorText != 'k.l' or tuple(s.specificity) != (0, 0, 1, 1):
+                viol.append((what, f'Selector("k.l").selectorText = {text!r}: raised={raised!r}, now {s.selectorText!r} {s.specificity!r}', dict(inp, mode=mode, via='setter')))
+            # appendSelector: text and pair form
+            for form in ('text', 'pair'):
+                n += 1
+                sl = SelectorList('x, y')
+                raised = None
+                ret = None
+                try:
+                    ret = sl.appendSelector(text if form == 'text' else (text, dict(NS)))
+                except xml.dom.DOMException as e:
+                    raised = e
+                except Exception as e:  # noqa: BLE001
+                    viol.append(('bounded: list operations raise DOM exceptions only', f'appendSelector({text!r}): {type(e).__name__}: {e}', dict(inp, mode=mode, form=form)))
+                    continue
+                if (mode and raised is None) or (not mode and raised is not None) or ret is not None or _list_texts(sl) != ['x', 'y']:
+                    viol.append((WHAT_APP, f'appendSelector({text!r}) [{form}] raise={mode}: raised={raised!r} returned={ret!r} list {_list_texts(sl)!r}', dict(inp, mode=mode, form=form)))
+        # as the only invalid member of a list of <= 3, at every position
+        for members in ([text], [text, 'a'], ['a', text], [text, 'a', 'b.c'], ['a', text, 'b.c'], ['a', 'b.c', text]):
+            k_n, v = _reject_list_case(', '.join(members))
+            n += k_n
+            viol.extend((w, d, dict(i, token=kind, template=template)) for w, d, i in v)
+    finally:
+        cssutils.log.raiseExceptions = True
+    return n, viol
+
+
+def stray_tokens(ctx):
+    """every token kind without a production in a selector, at the start / between / at the end of compound selectors: no selector, no list member"""
+    _quiet()
+    cases = stray_texts(ctx.tier)
+    n = 0
+    kinds = set()
+    if ctx.jobs > 1:
+        with multiprocessing.get_context('fork').Pool(ctx.jobs, initializer=_init_worker) as pool:
+            results = list(pool.imap(_stray_case, cases, chunksize=8))
+    else:
+        results = [_stray_case(c) for c in cases]
+    for (kind, template, text), (k, viol) in zip(cases, results):
+        n += k
+        kinds.add((kind, template))
+        for what, detail, inputs in viol:
+            ctx.violation(what, detail, True, inputs)
+    ctx.bounded.append({'name': 'C16 tokens without a production in a selector', 'evaluations': n, 'distinct_nontrivial': len(kinds), 'exhaustive': True,
+                        'rule': f'{len(STRAY_TOKENS)} token kinds that the selector grammar has no production for (CDO, CDC, semicolon, braces, closing parenthesis / bracket, at-keywords, '
+                                'delimiters, attribute match operators outside brackets, strings, url(), percentage, dimension, numbers, unicode range, a function without a colon) x '
+                                f'{len(STRAY_SPACED)} blank-separated and {len(STRAY_GLUED_RIGHT) + len(STRAY_GLUED_LEFT)} glued positions (start, between - before and behind a child '
+                                'combinator -, end of compounds; glued behind a compound only for tokens that cannot continue an identifier): Selector constructor and selectorText setter, '
+                                'appendSelector as text and as pair, in raising and in log mode; and as the only invalid member at every position of a list of <= 3 members through '
+                                'SelectorList.selectorText, CSSStyleRule.selectorText, the constructor and (where the token cannot end the prelude) the parser; distinct = (token kind, position)',
+                        'samples': [{'text': 'b <!-- c'}, {'text': 'a, b{J}c, b.c'.replace('{J}', '"s"')}],
+                        'bound': 'one stray token per text, fixed token spellings, host selectors of <= 2 compounds'})
